@@ -59,7 +59,14 @@ func runFaultImpl(work string, kind uint64, o wOpts, roots []cid.Cid, faults []i
 	return faultRun{obs, x.callLens, x.hits, file}
 }
 
+// harness kind 4 (storage on a WriterAt without Truncate, CARv1) is the model's kind 3: positioned
+// appends are sequential writes, and a partial section cannot be taken back either; the input says
+// kind 3 and carries a marker so that a replay uses the same writer again.
 func faultInput(kind uint64, o wOpts, roots []cid.Cid, faults []int, ops VL, real Val) Val {
+	if kind == 4 {
+		in := storeInput(3, o, roots, faults, ops).(VL)
+		return append(in, real, VT("notrunc"))
+	}
 	in := storeInput(kind, o, roots, faults, ops).(VL)
 	return append(in, real)
 }
@@ -84,7 +91,7 @@ func c16Rows(kind uint64) []wOpts {
 	v1.v1 = true
 	v1d := v1
 	v1d.dups = true
-	if kind == 3 {
+	if kind >= 3 {
 		return []wOpts{v1, v1d}
 	}
 	v2 := defaultWOpts
@@ -98,8 +105,8 @@ func c16Rows(kind uint64) []wOpts {
 // the session template of the exhaustive part: a long block, shorter ones after it (so that a
 // failed long section leaves bytes beyond everything written later), every put probed with
 // Has/Get and retried once, a batch on the blockstore, then Finalize.
-func c16Template(r *RNG, kind uint64, o wOpts) ([]cid.Cid, VL) {
-	b := plainBlocks(r, []int{44, 3, 0, 9, 5})
+func c16Template(r *RNG, kind uint64, o wOpts, lens []int) ([]cid.Cid, VL) {
+	b := plainBlocks(r, lens)
 	id := Blk{mkCid(1, 0x55, 0x00, -1, []byte{1, 2, 3}), []byte{1, 2, 3}}
 	roots := []cid.Cid{b[0].Cid}
 	ops := VL{putOp(b[0]), hasOp(b[0]), getOp(b[0]), putOp(b[0]),
@@ -129,7 +136,13 @@ func scriptAt(n, i, k int) []int {
 func init() {
 	replay := func(c *Ctx, in Val) Val {
 		l := in.(VL)
-		return runFaultImpl(c.Work, uint64(l[0].(VN)), wOptsFromVal(l[1]), cidsFromVal(l[2]), faultsFromVal(l[3]), l[4].(VL)).obs
+		kind := uint64(l[0].(VN))
+		if len(l) > 7 {
+			if t, ok := l[7].(VT); ok && t == "notrunc" {
+				kind = 4
+			}
+		}
+		return runFaultImpl(c.Work, kind, wOptsFromVal(l[1]), cidsFromVal(l[2]), faultsFromVal(l[3]), l[4].(VL)).obs
 	}
 	registerReplay("fault", replay)
 
@@ -148,67 +161,68 @@ func init() {
 		}
 
 		// ---- exhaustive: every write call x {error with 0 bytes, short writes} ----------------
-		for kind := uint64(0); kind < 4; kind++ {
+		for kind := uint64(0); kind < 5; kind++ {
 			rows := c16Rows(kind)
-			if !c.Thorough && c.Scale <= 1 {
-				// quick tier: rotate through the option rows by seed, always both container versions
-				if kind == 3 {
-					rows = rows[:1]
-				} else {
-					rows = []wOpts{rows[0], rows[1], rows[2+int(c.R.U64()%3)]}
-				}
+			lensList := [][]int{{44, 3, 0, 9, 5}}
+			if c.Thorough {
+				// a two-byte length varint, empty blocks, equal lengths
+				lensList = append(lensList, []int{130, 1, 2, 100, 0}, []int{0, 0, 1, 1, 1})
 			}
-			for _, o := range rows {
-				r := c.R.Fork()
-				roots, ops := c16Template(r, kind, o)
-				first := 0
-				probe := []int{}
-				if kind == 0 {
-					first = blockstoreOpenCalls(o)
-					probe = scriptAt(first+1, first+1, -1) // non-empty script: installs the wrapper
-				}
-				base := runFaultImpl(c.Work, kind, o, roots, probe, ops)
-				emit(kind, o, roots, nil, ops, "exhaustive:fault-free")
-				n := first + len(base.callLens)
-				for i := first; i < n; i++ {
-					ln := base.callLens[i-first]
-					var ks []int
-					if c.Thorough || ln <= 4 {
+			for ri, o := range rows {
+				for li, lens := range lensList {
+					if li > 0 && ri > 1 {
+						continue // the extra block-length vectors on the two default rows only
+					}
+					r := c.R.Fork()
+					roots, ops := c16Template(r, kind, o, lens)
+					first := 0
+					probe := []int{}
+					if kind == 0 {
+						first = blockstoreOpenCalls(o)
+						probe = scriptAt(first+1, first+1, -1) // non-empty script: installs the wrapper
+					}
+					base := runFaultImpl(c.Work, kind, o, roots, probe, ops)
+					emit(kind, o, roots, nil, ops, "exhaustive:fault-free")
+					n := first + len(base.callLens)
+					for i := first; i < n; i++ {
+						ln := base.callLens[i-first]
+						var ks []int
+						// every short length (and the error with nothing written); beyond 64 bytes a spread
 						for k := 0; k < ln; k++ {
-							ks = append(ks, k)
+							if k < 48 || k >= ln-8 || k%7 == 0 {
+								ks = append(ks, k)
+							}
 						}
 						if ln == 0 {
 							ks = []int{0}
 						}
-					} else {
-						ks = []int{0, 1, ln / 2, ln - 1}
-					}
-					for _, k := range ks {
-						emit(kind, o, roots, scriptAt(n, i, k), ops, "exhaustive:one-fault")
-						if k == 0 {
-							c.Count("fault:error-no-bytes")
-						} else {
-							c.Count("fault:short-write")
+						for _, k := range ks {
+							emit(kind, o, roots, scriptAt(n, i, k), ops, "exhaustive:one-fault")
+							if k == 0 {
+								c.Count("fault:error-no-bytes")
+							} else {
+								c.Count("fault:short-write")
+							}
 						}
-					}
-					// two faults: this call and a later one (the retry / the next section)
-					if i+2 < n {
-						f := scriptAt(n, i, ln/2)
-						j := i + 1 + r.Intn(min(6, n-i-1))
-						f[j] = r.Intn(base.callLens[min(j, n-1)-first] + 1)
-						emit(kind, o, roots, f, ops, "exhaustive:two-faults")
+						// two faults: this call and a later one (the retry / the next section)
+						if i+2 < n {
+							f := scriptAt(n, i, ln/2)
+							j := i + 1 + r.Intn(min(6, n-i-1))
+							f[j] = r.Intn(base.callLens[min(j, n-1)-first] + 1)
+							emit(kind, o, roots, f, ops, "exhaustive:two-faults")
+						}
 					}
 				}
 			}
 		}
 
 		// ---- random histories with random multi-fault scripts, all option combinations ---------
-		n := 150 * c.Scale
+		n := 400 * c.Scale
 		for i := 0; i < n; i++ {
 			r := c.R.Fork()
-			kind := uint64(pick(r, []int{0, 0, 1, 2, 3}))
+			kind := uint64(pick(r, []int{0, 0, 0, 1, 1, 2, 3, 4}))
 			o := genWOpts(r)
-			if kind == 3 {
+			if kind >= 3 {
 				o.v1 = true
 			}
 			alpha := storeAlphabet(r, 3+r.Intn(4))
